@@ -368,3 +368,68 @@ func (p *Prog) tokenNames() map[int64]string {
 	}
 	return out
 }
+
+// boundedCountingLoop: is the loop headed by hdr a counting loop  for i := a; i < n; i++  (or i <= n, n > i …) whose bound n
+// is loop-invariant — a value, or the len() of a value, defined before the loop?  Such a loop makes at most n-a iterations
+// like a range loop (SSA slice values are immutable headers, so len(x) of an outside x cannot grow inside the loop).
+func boundedCountingLoop(hdr *ssa.BasicBlock) bool {
+	if len(hdr.Instrs) == 0 {
+		return false
+	}
+	iff, ok := hdr.Instrs[len(hdr.Instrs)-1].(*ssa.If)
+	if !ok {
+		return false
+	}
+	bo, ok := iff.Cond.(*ssa.BinOp)
+	if !ok {
+		return false
+	}
+	var ctr, bound ssa.Value
+	switch bo.Op {
+	case token.LSS, token.LEQ:
+		ctr, bound = bo.X, bo.Y
+	case token.GTR, token.GEQ:
+		ctr, bound = bo.Y, bo.X
+	default:
+		return false
+	}
+	phi, ok := ctr.(*ssa.Phi)
+	if !ok || phi.Block() != hdr {
+		return false
+	}
+	// every edge from inside the loop carries ctr+1
+	stepped := false
+	for i, e := range phi.Edges {
+		pred := hdr.Preds[i]
+		inLoop := hdr.Dominates(pred)
+		if !inLoop {
+			continue
+		}
+		add, ok := e.(*ssa.BinOp)
+		if !ok || add.Op != token.ADD {
+			return false
+		}
+		k, isK := constInt(add.Y)
+		if add.X != phi || !isK || k < 1 {
+			return false
+		}
+		stepped = true
+	}
+	if !stepped {
+		return false
+	}
+	outside := func(v ssa.Value) bool {
+		switch x := v.(type) {
+		case *ssa.Const, *ssa.Parameter, *ssa.FreeVar:
+			return true
+		case ssa.Instruction:
+			b := x.Block()
+			return b != nil && b != hdr && b.Dominates(hdr)
+		}
+		return false
+	}
+	if la := lenArg(bound); la != nil {
+		return outside(la)
+	}
+	return outside(bound)
+}
